@@ -43,6 +43,9 @@ def main():
     gen_failed = {k: v for k, v in b["gen"].items() if isinstance(v, str) and v.startswith("FAILED") and ("gen/" + k) in " ".join(needed) or k == "_extract" or k == "error"}
     # 2. proofs
     pr = vlib.compile_props(pid) if not broken_units else {"ok": False, "theorems": [], "error": "dependencies failed to build: %s" % broken_units, "stated": []}
+    dirty = vlib.hygiene()
+    if dirty:
+        pr = dict(pr, ok=False, error="development is not clean (admitted proof / declared axiom / disabled check): %s" % dirty[:10])
     bad_axioms = [t for t in pr["theorems"] if not vlib.axioms_ok(t)]
     proofs_ok = pr["ok"] and not bad_axioms and len(pr["theorems"]) == len(pr.get("stated", [])) and len(pr["theorems"]) > 0
     model_ok = b["driver_ok"] and not [f for f in b["failed"] if f in set(mod.MODEL_DEPS)]
@@ -96,6 +99,8 @@ def main():
         "distinct_nontrivial": ctx.distinct_nontrivial,
         "rule": getattr(mod, "RULE", ""),
         "samples": ctx.samples[:6],
+        "hygiene": {"scan": "no Admitted/admit/Axiom/Parameter/Conjecture, no disabled kernel check, no Variable/Hypothesis outside a section in any .v of the development",
+                    "offences": dirty},
         "phases_wall_s": {"build": b["wall_s"], "corr_search": round(t2 - t1, 1)},
     }
     ev = {
@@ -110,6 +115,9 @@ def main():
         tail = " no-failing-input-found" if all(v.get("no_failing_input_found") for v in violations) else ""
         print("VIOLATION property=%s replay=%s%s" % (pid, rp, tail))
         return 1
+    stale = os.path.join(vlib.OUT, "replay_%s_%d.json" % (pid, seed))
+    if os.path.exists(stale):
+        os.remove(stale)
     print("OK property=%s tier=%s theorems=%d corr_cases=%s search_evals=%s wall=%.0fs" % (
         pid, tier, len(pr["theorems"]), ctx.corr_stats.get("cases"), ctx.evaluations, time.time() - t0))
     return 0
